@@ -349,10 +349,19 @@ func (r *c16Run) inSelect(name string) bool {
 	return ok && c16States()[id] == "select"
 }
 
-// waitStable waits until producers and closers finished and every other goroutine finished or is
-// blocked in a select; it returns the blocked ones.  The bound only matters on failing paths.
-func (r *c16Run) waitStable() (stuckR []string, stuckC bool, ok bool) {
-	deadline := time.Now().Add(10 * time.Second)
+// c16Waiting are the goroutine states in which a goroutine makes no progress by itself.
+// ("semacquire" is NOT one of them: it is a runtime-internal wait, e.g. for the world semaphore that
+// the goroutine dump itself holds while a goroutine wants to start a GC cycle.)
+var c16Waiting = map[string]bool{"select": true, "sync.Mutex.Lock": true, "chan receive": true,
+	"chan send": true, "sync.RWMutex.Lock": true, "sync.Cond.Wait": true, "sync.WaitGroup.Wait": true}
+
+// waitStable waits until every goroutine of the run has finished or is blocked (one consistent
+// goroutine dump in which none of them is running, runnable or sleeping).  Readers and the consumer
+// blocked in a select are the parked states of the model; anything else that is blocked (a producer,
+// a closer, a goroutine waiting for c.mu) is a deadlock.  The bound only matters on failing paths
+// and never yields a verdict.
+func (r *c16Run) waitStable() (stuckR []string, stuckC bool, stuckO []string, ok bool) {
+	deadline := time.Now().Add(60 * time.Second)
 	r.thmu.Lock()
 	var names []string
 	for n := range r.finished {
@@ -360,45 +369,55 @@ func (r *c16Run) waitStable() (stuckR []string, stuckC bool, ok bool) {
 	}
 	r.thmu.Unlock()
 	sort.Strings(names)
+	confirm := 0
 	for spin := 0; ; spin++ {
-		stuckR, stuckC = []string{}, false
+		stuckR, stuckC, stuckO = []string{}, false, []string{}
 		stable := true
-		// first the goroutines that never park: they must have finished BEFORE the snapshot is taken
+		// which goroutines are still alive is decided BEFORE the dump is taken
+		var alive []string
 		for _, n := range names {
-			r.thmu.Lock()
-			k := r.kind[n]
-			r.thmu.Unlock()
-			if (k == "producer" || k == "closer") && !r.isFinished(n) {
-				stable = false
-				break
+			if !r.isFinished(n) {
+				alive = append(alive, n)
 			}
 		}
-		if stable {
+		if len(alive) > 0 {
 			st := c16States()
-			for _, n := range names {
+			for _, n := range alive {
 				r.thmu.Lock()
 				k := r.kind[n]
 				id, have := r.goids[n]
 				r.thmu.Unlock()
-				if k == "producer" || k == "closer" || r.isFinished(n) {
-					continue
+				state, inDump := st[id]
+				if have && !inDump {
+					continue // exited before the dump was taken
 				}
-				if !have || st[id] != "select" {
+				// (no second look at "finished" here: the verdict must come from ONE consistent dump)
+				if !have || !c16Waiting[state] {
 					stable = false
 					break
 				}
-				if k == "reader" {
+				switch {
+				case st[id] == "select" && k == "reader":
 					stuckR = append(stuckR, n)
-				} else {
+				case st[id] == "select" && k == "consumer":
 					stuckC = true
+				default:
+					stuckO = append(stuckO, n+":"+st[id])
 				}
 			}
 		}
-		if stable {
-			return stuckR, stuckC, true
+		if stable && len(stuckO) > 0 && confirm < 3 {
+			// failing path: a deadlock verdict is taken only from four identical dumps
+			confirm++
+			time.Sleep(time.Millisecond)
+			continue
 		}
+		if stable {
+			return stuckR, stuckC, stuckO, true
+		}
+		confirm = 0
 		if time.Now().After(deadline) {
-			return stuckR, stuckC, false
+			return stuckR, stuckC, stuckO, false
 		}
 		if spin < 20 {
 			runtime.Gosched()
@@ -408,30 +427,48 @@ func (r *c16Run) waitStable() (stuckR []string, stuckC bool, ok bool) {
 	}
 }
 
-func (r *c16Run) quiet(phase int) bool {
-	stuckR, stuckC, ok := r.waitStable()
+// quiet logs a quiescent point; clean = nothing is stuck, settled = the point was reached.
+func (r *c16Run) quiet(phase int) (clean, settled bool) {
+	stuckR, stuckC, stuckO, ok := r.waitStable()
+	if len(stuckO) > 0 {
+		// somebody may be blocked on c.mu for ever: do not touch the lock
+		r.log(map[string]any{"ev": "quiet", "phase": phase, "stuckR": stuckR, "stuckC": stuckC, "stuckO": stuckO,
+			"timeout": !ok, "q": []map[string]any{}, "cg": []int{}})
+		return false, ok
+	}
 	r.c.mu.Lock()
 	r.logmu.Lock()
-	r.events = append(r.events, map[string]any{"ev": "quiet", "phase": phase, "stuckR": stuckR, "stuckC": stuckC,
+	r.events = append(r.events, map[string]any{"ev": "quiet", "phase": phase, "stuckR": stuckR, "stuckC": stuckC, "stuckO": stuckO,
 		"timeout": !ok, "q": r.queue(), "cg": r.closedGens()})
 	r.logmu.Unlock()
 	r.c.mu.Unlock()
-	return ok && len(stuckR) == 0 && !stuckC
+	return ok && len(stuckR) == 0 && !stuckC, ok
 }
 
 // settle runs the three quiescent phases: free run, finish(), close(done).
-func (r *c16Run) settle() bool {
+func (r *c16Run) settle() (clean, settled bool) {
 	r.freed.Store(true)
 	if r.s != nil {
 		r.s.Free()
 	}
-	r.quiet(1)
+	if _, ok := r.quiet(1); !ok {
+		r.closeDone()
+		return false, false
+	}
 	r.log(map[string]any{"ev": "fin_call"})
-	r.c.finish()
+	fin := make(chan struct{})
+	go func() { r.c.finish(); close(fin) }()
+	select {
+	case <-fin:
+	case <-time.After(60 * time.Second): // c.mu is held for ever: failing path
+		r.closeDone()
+		return false, false
+	}
 	r.log(map[string]any{"ev": "fin_ret"})
-	r.quiet(2)
+	_, ok2 := r.quiet(2)
 	r.closeDone()
-	return r.quiet(3)
+	clean, ok3 := r.quiet(3)
+	return clean, ok2 && ok3
 }
 
 func (r *c16Run) state() map[string]any {
@@ -462,7 +499,7 @@ func (r *c16Run) step(t, p string) (arr string, blocked bool, err error) {
 		if r.inSelect(t) {
 			return "", true, nil
 		}
-		if time.Since(start) > 10*time.Second {
+		if time.Since(start) > 60*time.Second {
 			return "", false, err
 		}
 		arr, err = r.s.Await(t)
@@ -545,9 +582,11 @@ func c16RunBehaviour(b *c16Scope) (events []map[string]any, outcome string) {
 			}
 		}
 	}
-	clean := r.settle()
-	if !s.Join(5*time.Second) && clean {
-		outcome += "+join-timeout"
+	clean, settled := r.settle()
+	if !settled {
+		outcome = "unsettled: " + outcome
+	} else if !s.Join(5*time.Second) && clean {
+		outcome = "unsettled: join timeout, " + outcome
 	}
 	r.logmu.Lock()
 	defer r.logmu.Unlock()
@@ -575,7 +614,7 @@ func TestVerifC16Replay(t *testing.T) {
 		if err := json.Unmarshal(ln, &b); err != nil {
 			t.Fatal(err)
 		}
-		if counts["blocked"]+counts["infeasible"] >= 5 {
+		if counts["blocked"]+counts["infeasible"]+counts["unsettled"] >= 5 {
 			skipped++ // failing path: each blocked behaviour leaks goroutines until done closes; a few are enough
 			continue
 		}
@@ -666,7 +705,7 @@ func TestVerifC16Stress(t *testing.T) {
 				r.closeDone()
 			})
 		}
-		if !r.settle() {
+		if _, settled := r.settle(); !settled {
 			unclean++
 		}
 		verifhook.Set(nil)
